@@ -273,7 +273,7 @@ def matrix_inverse(ctx, n, signs):
 
 
 @scenario('C16', fns=['linalg.matrix_determinant', 'linalg.matrix_pivot', 'linalg.lu_decomposition', '_linalg.doolittle'],
-          quick=_shapes((1, 2), (3,)), thorough=_shapes((1, 2, 3), (4,)))
+          quick=_shapes((1, 2), (3,)), thorough=_shapes((1, 2, 3), ()))       # n = 4: beyond the budget (sign forks of rational pivots)
 def matrix_determinant(ctx, n, signs):
     """requires: det(A) != 0 (non-singular)
        ensures : matrix_determinant(A) == Leibniz determinant"""
@@ -348,10 +348,11 @@ def assume_diag_dominant(ctx, A, by):
 @scenario('C16', fns=['linalg.lu_solve', 'linalg.lu_decomposition', '_linalg.doolittle', 'linalg.forward_substitution',
                       'linalg.backward_substitution'],
           quick=[dict(n=n, by=by) for n in (1, 2, 3) for by in ('rows', 'columns')],
-          thorough=[dict(n=n, by=by) for n in (1, 2, 3, 4) for by in ('rows', 'columns')])
+          thorough=[dict(n=n, by=by) for n in (1, 2, 3) for by in ('rows', 'columns')])
 def diagonally_dominant(ctx, n, by):
     """requires: A strictly diagonally dominant (by rows / by columns), b any
-       ensures : lu_solve returns a result (no zero pivot) and A x = b"""
+       ensures : lu_solve returns a result (no zero pivot) and A x = b
+       (n = 4 is not in the family: the solver answers unknown on the third pivot)"""
     la = ctx.geomdl('linalg')
     A = sym_matrix(ctx, n, n, 'a')
     b = sym_matrix(ctx, n, 1, 'b')
